@@ -8,6 +8,20 @@ CHECKS = {
         note="Trusted: pyvc's encoding of Python semantics, z3/cvc5, and the assumed contract of CPython's bisect_left/bisect_right (validated by the bounded stand-in on every run). Elements are NaN-free totally ordered numbers.",
         design_ref="DESIGN.md 5 (C18)",
     ),
+    "C01": dict(
+        category="proof",
+        technique="contract-based deductive verification (pyvc): exactness postconditions on Index.search and on TinyFlux.count/contains/get/search/all for both the index and the scan branch, loop invariants with ghost counting functions; bounded differential stand-in alongside",
+        text="For every index state satisfying the representation invariant and every well-formed query, Index._search_helper and its four leaves are proved to return exactly {i | query true on stored point i}; TinyFlux.count/contains/get/search/all are proved to return the number / existence / first / exact enumeration (once each, insertion order or stable time order) of the selected points on the index path, the scan path and the all-rows-matched fallback, with the read_op wrapper inlined from the real decorator. Six counting lemmas are proved by explicit induction. select() and the Measurement forwarders are served only by the bounded stand-in.",
+        note="Relative to: the abstract Storage contract (assumed; refinement by CSV/Memory storage not proved), the query-object axioms of contracts/model.py (q(point) total and equal to sem; path/test behaviour of index-eligible queries), datetime/timestamp order axioms, bisect contract, set-cardinality facts, pyvc's encoding, z3/cvc5. Termination of the _search_helper recursion is not proved.",
+        design_ref="DESIGN.md 5 (C01), 12",
+    ),
+    "C02": dict(
+        category="proof",
+        technique="contract-based deductive verification (pyvc): whole-view postcondition of _remove_helper/remove/drop_measurement/remove_all with rank/count lemmas proved by induction; bounded differential stand-in alongside",
+        text="_remove_helper is proved, on the index path (with the position-renumbering bookkeeping) and on the scan path, to leave storage equal to the old contents without exactly the selected positions, every survivor unmodified and in order (items'[i - cnt(A,i)] = items[i]), to return |A|, to change nothing when nothing is selected, and to re-establish the database invariant through Index.remove/Index.update whose preconditions (renumbering in range, strictly monotone, onto) are discharged from the loop invariant; remove/drop_measurement/remove_all are proved with their real decorator wrappers inlined.",
+        note="Relative to: the abstract Storage contract (assumed), query meaning axioms, set-cardinality facts, two pigeonhole lemma instances in Index.update, pyvc's encoding, z3/cvc5. I/O failures are out of scope here (C13).",
+        design_ref="DESIGN.md 5 (C02), 12",
+    ),
     "C06": dict(
         category="proof",
         technique="contract-based deductive verification (pyvc): representation invariant Repr(index, view) proved preserved by every Index mutator; database-level clauses by a labelled bounded stand-in",
